@@ -25,8 +25,23 @@ chk.extra['rule'] = (
     'option is left to the force field and the force field defines variables; histories (one processor object over '
     '2-3 molecules with different force-field variables) count if bonds are emitted and the resolved separation '
     'differs between applications; region cases count if regions overlap and the pair shares one; '
+    'boundary stream: the same molecules with 1-3 legal boundary values (minimum force = base / just below / 0, base 0, upper 0, '
+    'lower = upper, separation 0 or from the force field, empty / one-atom selection, one residue, chain None and empty string, '
+    'touching / nested / reversed / negative regions, coincident atoms); shared stream: 2-3 processors sharing one criterion '
+    '(and selector) object applied interleaved; command line: random option values through the add_argument calls and the '
+    'three statements extracted from bin/martinize2 (count if a region criterion with a mixed truth table or a ValueError '
+    'results), int() and region-rendering streams, real in-process martinize2 runs on a two-chain peptide; '
     'distinct = distinct protocol line')
-chk.lean(['VermouthProps.C15'], 'driver_c15')
+import c15_cli
+CLI_X, CLI_ERR = None, None
+try:
+    CLI_X = c15_cli.extract(REPO)
+except Exception as e:  # noqa
+    CLI_ERR = '%s: %s' % (type(e).__name__, e)
+chk.lean(['VermouthProps.C15', 'VermouthProps.C15_Cli', 'VermouthProps.C15_CliTable', 'VermouthProps.C15_Num'], 'driver_c15',
+         generated={'C15Cli.lean': CLI_X['lean']} if CLI_X else None)
+if CLI_ERR:
+    chk.broken.append(('extract:martinize2-elastic-options', CLI_ERR))
 chk.trusted += [
     'harness/c15.py: molecule builder, canonicaliser, independent oracle (five criteria by the property text, residue '
     'distances by networkx single_source_shortest_path_length on its own residue graph), numeric oracle for the decay '
@@ -39,6 +54,11 @@ chk.assumptions += [
     'the decayed constant base*exp(-a (d-lo)^p) enters the model as an input table squared distance -> rational; its '
     'value is checked against the documented formula by the numeric oracle only',
     'cases with a decayed constant within 1e-9 (relative) of minimum_force, or NaN, are excluded and counted',
+    'where no decay can apply (decay factor 0; d = lower; d < lower with an odd integer power; base >= 0) the constant must be '
+    'the base constant bit for bit: assumes exp(x) >= 1.0 for x >= 0 in the C library and that the float sign of d - lower is '
+    'the exact one (checked per case)',
+    'command line: option strings are ASCII; the conversion type=float is Python\'s; argparse is the real one',
+    'rendered length = str(parameter), the expression of vermouth/gmx/itp.py (compared with a written ITP in one real run)',
 ]
 
 import numpy as np
@@ -67,6 +87,58 @@ LOG = quiet_vermouth_logs()
 LOG.setLevel(logging.DEBUG)
 HANDLER = ListHandler()
 LOG.addHandler(HANDLER)
+
+
+# ---- real command-line runs: started now in a forked child, collected at the end ------------------------------
+def cli_opts(**kw):
+    o = {'elastic': True, 'go': False, 'ff': 'martini3001', 'ff_given': False, 'floats': {}, 'ermd': None, 'eb': None,
+         'eunit': None, 'other': [], 'nres': 8, 'shift': 14.0, 'finish': False}
+    o.update(kw)
+    return o
+
+
+CLI_RUNS = [
+    cli_opts(),                                                  # two molecules, every default, force-field variables
+    cli_opts(other=['-merge', 'A,B'], eunit='3:6,5:12', eb='BB,SC1', ermd='0', finish=True,
+             floats={'-ef': '500', '-el': '0.5', '-eu': '1.0', '-ea': '1', '-ep': '1', '-em': '10'}),
+]
+if chk.thorough:
+    CLI_RUNS += [
+        cli_opts(elastic=False, ff='elnedyn22', ff_given=True, eunit='all'),
+        cli_opts(other=['-merge', 'A,B'], eunit='chain', ermd='1', eb='BB,SC1,SC2'),
+        cli_opts(eunit='1:2:3'),
+        cli_opts(eunit='a:b'),
+        cli_opts(go=True),
+        cli_opts(ermd='2.0'),
+        cli_opts(other=['-merge', 'A,B'], eunit='-3:4,20:6', floats={'-ea': '0.5', '-ep': '2', '-el': '0.4', '-eu': '0.8984375'},
+                 ermd='3'),
+        cli_opts(eunit='all', floats={'-em': '700'}, shift=10.0),
+        cli_opts(eunit='all', ermd='0', eb='', shift=10.0),
+    ]
+
+
+def cli_argv(o):
+    return c15_cli.argv_of(None, o) + list(o['other'])
+
+
+def cli_probes(extra):
+    unit = None
+    for i, a in enumerate(extra):
+        if a == '-eunit' and i + 1 < len(extra):
+            unit = extra[i + 1]
+        elif a.startswith('-eunit='):
+            unit = a[len('-eunit='):]
+    return c15_cli.probes_for(None, unit)
+
+
+CLI_HANDLE = None
+if CLI_X is not None:
+    if chk._cov is not None:
+        chk._cov.stop()         # the child would trace a whole command-line run line by line
+    CLI_HANDLE = c15_cli.start_cli_runs(REPO, [(cli_argv(o), o['nres'], o['shift'], o['finish']) for o in CLI_RUNS],
+                                        cli_probes)
+    if chk._cov is not None:
+        chk._cov.start()
 
 
 # ----------------------------------------------------------------------------
@@ -116,7 +188,7 @@ def run_real(spec):
     else:
         selector = functools.partial(selectors.proto_select_attribute_in, attribute='atomname', values=list(p['names']))
     dom = domain_callable(p['dom'])
-    upper = p['U'] / UNIT
+    upper = upper_float(p)
     HANDLER.records[:] = []
     exc = None
     try:
@@ -150,11 +222,95 @@ def frac(x):
     return [f.numerator, f.denominator]
 
 
-def n5_of(length):
-    x = float(length) * 1e5
-    if x != x or abs(x) > 1e15:
-        return -1
-    return int(round(x))
+def rendered_params(inter):
+    """the parameters as the ITP writer prints them: `' '.join(str(x) for x in interaction.parameters)`"""
+    r = getattr(inter, 'rendered', None)
+    return list(r) if r is not None else [str(x) for x in inter.parameters]
+
+
+def n5_exact(text):
+    """the rendered length as an exact multiple of 1e-5 nm: integer, or None if it is no decimal number / has more
+    than 5 decimals.  No floating point involved: the decimal string is read as a fraction."""
+    try:
+        x = Fraction(text) * 10 ** 5
+    except (ValueError, ZeroDivisionError):
+        return None
+    return int(x) if x.denominator == 1 else None
+
+
+def n5_of(inter):
+    n = n5_exact(rendered_params(inter)[1])
+    return -1 if n is None else n
+
+
+def py_admissible(d2, n):
+    """|n 1e-5 - sqrt(d2)/256| <= 0.5e-5 as an integer inequality (the statement the model's bounds are checked against)"""
+    x = 4 * d2 * 3125 * 3125
+    lo = max(2 * n - 1, 0)
+    return lo * lo * 64 <= x <= (2 * n + 1) * (2 * n + 1) * 64
+
+
+LEN_CHECKS = []      # (errs list of the case, prefix, atoms, d2, rendered length): judged with the model's bounds
+
+
+def py_bounds(d2):
+    """the solution set of py_admissible(d2, .) by trying the integers around sqrt(d2)*3125/8"""
+    n0 = math.isqrt(d2 * 3125 * 3125 // 64)
+    ok = [n for n in range(max(n0 - 2, 0), n0 + 3) if py_admissible(d2, n)]
+    return min(ok), max(ok)
+
+
+def flush_len_checks():
+    """ask the model for the admissible interval of every squared distance met, check the interval against the
+    inequality it stands for, then judge the rendered lengths of the real bonds with it"""
+    d2s = sorted({c[3] for c in LEN_CHECKS})
+    bounds = {}
+    if chk.lean_ok and d2s:
+        lns = [line('lenbounds', d2) for d2 in d2s]
+        for d2, ln, r in zip(d2s, lns, chk.drv.ask(lns)):
+            chk.case('lenbounds-%d' % d2, ln, '%d %d' % py_bounds(d2), r, [], False)
+            try:
+                lo, hi = (int(x) for x in r.split())
+                bounds[d2] = (lo, hi)
+            except ValueError:
+                pass
+    for errs, prefix, atoms, d2, text in LEN_CHECKS:
+        n = n5_exact(text)
+        lo, hi = bounds.get(d2) or py_bounds(d2)
+        chk.count('length_checked_against_model_bounds' if d2 in bounds else 'length_checked_without_model')
+        if lo != hi:
+            chk.count('length_on_exact_tie')
+        if n is None or not (lo <= n <= hi):
+            errs.append('%sbond %r has length %s; the distance is sqrt(%d)/256 = %.7f nm, admissible: %s'
+                        % (prefix, atoms, text, d2, math.sqrt(d2) / UNIT, ' or '.join('%d e-5' % x for x in sorted({lo, hi}))))
+    LEN_CHECKS[:] = []
+
+
+def exact_pair(p, d2):
+    """the decay is >= 1 whatever exp is: a = 0, d = lower (p >= 1), or a > 0, d < lower and p odd; base >= 0"""
+    a, lo, pw = p['a'], p['lo'], p['pw']
+    if p['base'] < 0 or not (float(pw).is_integer() and pw >= 0):
+        return False
+    if a == 0:
+        return True
+    if lo < 0:
+        return False
+    l2 = (Fraction(lo) * UNIT) ** 2
+    if pw >= 1 and d2 == l2:
+        return True
+    return a > 0 and int(pw) % 2 == 1 and d2 < l2
+
+
+def decay_spec(p):
+    pw = p['pw']
+    if float(pw).is_integer() and pw >= 0:
+        return [frac(p['a']), frac(p['lo']), int(pw)]
+    return None
+
+
+def agrees(p, d2, fc, k):
+    """exact pairs must carry the base constant bit for bit; the others agree with the formula within the tolerance"""
+    return fc == k if exact_pair(p, d2) else close(fc, k)
 
 
 def near_thr(k, thr):
@@ -168,6 +324,17 @@ def near_thr(k, thr):
 
 def close(x, k):
     return x == k or abs(x - k) <= TOL * max(abs(k), 1e-300)
+
+
+def upper_float(p):
+    return p['upper'] if 'upper' in p else p['U'] / UNIT
+
+
+def upper2_of(p):
+    """squared cut-off in lattice units: d <= upper  <=>  d2 <= floor((256 upper)^2)   (upper >= 0)"""
+    if 'upper' not in p:
+        return p['U'] * p['U']
+    return int(math.floor((Fraction(p['upper']) * UNIT) ** 2))
 
 
 def pos_of(a):
@@ -233,8 +400,8 @@ def protocol_line(spec, ktab):
     else:
         dom = [2, [list(r) for r in p['dom'][1]]]
     sep = p['sep']
-    params = [list(p['names']), sep, p['U'] * p['U'], frac(p['base']), frac(p['minf']),
-              [[d2] + frac(k) for d2, k in sorted(ktab.items())], dom]
+    params = [list(p['names']), sep, upper2_of(p), frac(p['base']), frac(p['minf']),
+              [[d2] + frac(k) for d2, k in sorted(ktab.items())], dom, decay_spec(p)]
     return line('run', atoms, [list(e) for e in spec['edges']], params)
 
 
@@ -282,7 +449,7 @@ def criteria_table(spec, ktab_fn):
             pa, pb = pos_of(a), pos_of(b)
             if pa is not None and pb is not None:
                 d2 = d2_of(pa, pb)
-                distok = d2 <= p['U'] ** 2
+                distok = d2 <= upper2_of(p)
                 k = ktab_fn(d2)
                 forceok = k > p['minf']
             else:
@@ -291,7 +458,7 @@ def criteria_table(spec, ktab_fn):
     return out
 
 
-def oracle(spec, exc, rubber, warns, intact, table, ktab_fn):
+def oracle(spec, exc, rubber, warns, intact, table, ktab_fn, sink=None, prefix=''):
     p = spec['params']
     errs = []
     sel = selected_atoms(spec)
@@ -329,19 +496,18 @@ def oracle(spec, exc, rubber, warns, intact, table, ktab_fn):
         bt, length, fc = inter.parameters
         if bt != expected_bond_type(spec):
             errs.append('bond type %r instead of %r' % (bt, expected_bond_type(spec)))
-        n5 = n5_of(length)
-        if not (abs(float(length) * 1e5 - n5) <= 1e-6) or n5 != len5_expected(d2):
-            errs.append('bond %r has length %r, distance is sqrt(%d)/256 = %.7f' % (tuple(atoms), length, d2,
-                                                                                   math.sqrt(d2) / UNIT))
-        if not close(float(fc), k):
-            errs.append('bond %r has force constant %r, expected %r' % (tuple(atoms), fc, k))
+        LEN_CHECKS.append((errs if sink is None else sink, prefix, tuple(atoms), d2, rendered_params(inter)[1]))
+        if not agrees(p, d2, float(fc), k):
+            errs.append('bond %r has force constant %r, expected %r%s' % (tuple(atoms), fc, k,
+                        ' exactly (no decay applies to this pair)' if exact_pair(p, d2) else ''))
     for pair, n in seen.items():
         if n > 1:
             errs.append('bond %r emitted %d times' % (tuple(pair), n))
     for pair in expected:
         if pair not in seen:
             errs.append('no bond %r although all five criteria hold' % (tuple(sorted(pair)),))
-    return errs[:6]
+    del errs[6:]
+    return errs
 
 
 def expected_bond_type(spec):
@@ -507,10 +673,93 @@ def gen_spec(rng, decay, big=False):
     return spec
 
 
+def gen_boundary(rng):
+    """legal boundary / falsy parameter values and degenerate molecules, one to three per case"""
+    spec = gen_spec(rng, rng.random() < 0.4)
+    p, atoms = spec['params'], spec['atoms']
+    tweaks = rng.sample(['minf=base', 'minf_just_below_base', 'base=0', 'minf=0', 'upper=0', 'lower=upper', 'sep=0',
+                         'sep_from_force_field', 'selection_empty', 'selection_one_atom', 'one_residue', 'chain_none_empty',
+                         'regions_touching', 'regions_reversed_negative', 'coincident_atoms', 'upper=0', 'minf=base',
+                         'lower=upper', 'two_atoms'], rng.choice([1, 2, 2, 3]))
+    step = 32
+    for t in tweaks:
+        if t == 'two_atoms':
+            del atoms[2:]
+            keys = {a['key'] for a in atoms}
+            spec['edges'] = [e for e in spec['edges'] if e[0] in keys and e[1] in keys]
+            spec.pop('existing', None)
+        elif t == 'minf=base':
+            p['minf'] = p['base']
+        elif t == 'minf_just_below_base':
+            p['minf'] = math.nextafter(p['base'], 0.0)
+        elif t == 'base=0':
+            p['base'] = rng.choice([0.0, 0])
+            p['minf'] = rng.choice([0.0, 0, 0.25])
+        elif t == 'minf=0':
+            p['minf'] = rng.choice([0.0, 0])
+        elif t == 'upper=0':
+            p['U'] = 0
+        elif t == 'lower=upper':
+            p['lo'] = p['U'] / UNIT
+            if not float(p['pw']).is_integer():
+                p['pw'] = 1
+            if p['a'] == 0.0 and rng.random() < 0.7:
+                p['a'] = rng.choice([0.5, 1.0, 2.5])
+                p['pw'] = rng.choice([1, 2, 3])
+        elif t == 'sep=0':
+            p['sep'] = 0
+            if p['via'] == 'processor_ffvars':
+                p['via'] = 'processor'
+        elif t == 'sep_from_force_field':
+            p['via'] = 'processor_ffvars'
+            p['ffvars'] = rng.choice([{}, {'elastic_network_res_min_dist': 0}, {'elastic_network_res_min_dist': 1},
+                                      {'res_min_dist': 4}, {'elastic_network_bond_type': 0, 'elastic_network_res_min_dist': 0}])
+        elif t == 'selection_empty':
+            p['names'] = rng.choice([['XX'], [], ['']])
+            p['default_selector'] = False
+        elif t == 'selection_one_atom':
+            rng.choice(atoms)['name'] = 'ZZ'
+            p['names'] = ['ZZ']
+        elif t == 'one_residue':
+            a0 = atoms[0]
+            for a in atoms:
+                for k in ('chain', 'resid', 'resname', 'icode'):
+                    a[k] = a0[k]
+        elif t == 'chain_none_empty':
+            ids = rng.choice([[None, ''], [None, '', 'A'], ['', 'A'], [None, 'A']])
+            m = {}
+            for a in atoms:
+                a['chain'] = m.setdefault(a['chain'], rng.choice(ids))
+            p['dom'] = ['chain']
+        elif t == 'regions_touching':
+            lo_ = min(a['resid'] for a in atoms)
+            b = lo_ + rng.choice([1, 2, 3])
+            c = b + rng.choice([1, 2, 4])
+            p['dom'] = ['regions', rng.choice([[[lo_, b], [b, c]], [[lo_, b], [b + 1, c]], [[b, c], [lo_, b]],
+                                               [[lo_, c], [b, b]], [[b, b]], [[lo_, b], [lo_, b]]])]
+        elif t == 'regions_reversed_negative':
+            shift = min(a['resid'] for a in atoms) + rng.choice([3, 6, 10])
+            for a in atoms:
+                a['resid'] -= shift
+                if a.get('old') is not None:
+                    a['old'] -= shift
+            lo_ = min(a['resid'] for a in atoms)
+            p['dom'] = ['regions', rng.choice([[[lo_ + 3, lo_]], [[0, lo_]], [[-1, lo_ + 1], [2, 0]], [[lo_ + 2, lo_ - 5], [1, -1]]])]
+        elif t == 'coincident_atoms':
+            for _ in range(rng.choice([1, 2, 3])):
+                a, b = rng.choice(atoms), rng.choice(atoms)
+                if isinstance(a['pos'], list) and isinstance(b['pos'], list):
+                    b['pos'] = list(a['pos'])
+        chk.count('boundary_' + t)
+    if p['lo'] * UNIT > 4096 or p['U'] > 4096:
+        p['lo'] = 0.0
+    return spec
+
+
 # ----------------------------------------------------------------------------
 # run
 # ----------------------------------------------------------------------------
-def evaluate(cid, spec, stream):
+def evaluate(cid, spec, stream, real=None):
     p = spec['params']
     p['sep'] = effective_sep(spec)
     sel = selected_atoms(spec)
@@ -530,11 +779,23 @@ def evaluate(cid, spec, stream):
                         near += 1
         if 0 not in ktab:
             ktab[0] = k_expected(p, 0)
+            if ktab[0] != ktab[0]:
+                del ktab[0]            # no selected pair at distance 0: the entry would not be used
     if near:
         chk.count('excluded_near_minimum_force')
         return None
+    if not exact and p['lo'] >= 0:
+        l2 = (Fraction(p['lo']) * UNIT) ** 2
+        for d2 in ktab:
+            d = math.sqrt(d2) / UNIT
+            if (d < p['lo']) != (d2 < l2) or (d == p['lo']) != (d2 == l2):
+                chk.count('excluded_float_sign_of_d_minus_lower_differs')
+                return None
+    n_exact_pairs = sum(1 for d2 in ktab if exact_pair(p, d2)) if not exact else 0
+    if n_exact_pairs:
+        chk.count('decay_cases_with_pairs_at_or_below_lower_exactly_base')
     ktab_fn = (lambda d2: p['base']) if exact else (lambda d2: ktab[d2] if d2 in ktab else k_expected(p, d2))
-    exc, rubber, warns, intact = run_real(spec)
+    exc, rubber, warns, intact = run_real(spec) if real is None else real
     table = criteria_table(spec, ktab_fn)
     errs = oracle(spec, exc, rubber, warns, intact, table, ktab_fn)
     # canonical form of the real result
@@ -550,15 +811,13 @@ def evaluate(cid, spec, stream):
         for inter in rubber:
             a, b = inter.atoms
             bt, length, fc = inter.parameters
-            n5 = n5_of(length)
+            n5 = n5_of(inter)
             pa = next((pos_of(x) for x in spec['atoms'] if x['key'] == a), None)
             pb = next((pos_of(x) for x in spec['atoms'] if x['key'] == b), None)
             kexp = ktab_fn(d2_of(pa, pb)) if pa is not None and pb is not None else None
             fcf = float(fc)
-            if kexp is not None and close(fcf, kexp):
-                fcf = kexp
-            if a == b or (pa is not None and pa == pb):
-                pass
+            if kexp is not None and not exact_pair(p, d2_of(pa, pb)) and close(fcf, kexp):
+                fcf = kexp          # a constant with decay: compared within the tolerance of the numeric oracle
             bl.append([a, b, n5] + frac(fcf))
         impl = 'bonds ' + enc(bl) + (' +warning' if warns else '')
     ln = protocol_line(spec, {} if exact else ktab)
@@ -573,7 +832,9 @@ def evaluate(cid, spec, stream):
     chk.count('via_' + p['via'])
     chk.count('sep=%d' % p['sep'])
     chk.count('outcome_' + impl.split()[0])
-    n_at = sum(1 for v in table.values() if v[0] and v[5] == p['U'] ** 2)
+    if any(v[0] and v[1] and v[2] and v[3] and v[6] is not None and v[6] == p['minf'] for v in table.values()):
+        chk.count('cases_with_an_eligible_pair_exactly_on_minimum_force')
+    n_at = sum(1 for v in table.values() if v[0] and v[5] == upper2_of(p))
     if n_at:
         chk.count('cases_with_selected_pair_exactly_at_cutoff')
     idx = [i for i, a in enumerate(spec['atoms']) if a in sel]
@@ -605,6 +866,10 @@ N2 = 14000 if chk.thorough else 1400
 for i in range(N2):
     cases.append(('decay-%d' % i, gen_spec(rng, True, big=chk.thorough and i % 10 == 0), 'decay'))
 
+rng = chk.rng('boundary')
+for i in range(7000 if chk.thorough else 800):
+    cases.append(('boundary-%d' % i, gen_boundary(rng), 'boundary'))
+
 results = []
 for cid, spec, stream in cases:
     r = evaluate(cid, spec, stream)
@@ -612,6 +877,7 @@ for cid, spec, stream in cases:
         results.append(r)
 lines = [r[1] for r in results]
 models = chk.drv.ask(lines) if chk.lean_ok else [None] * len(lines)
+flush_len_checks()
 for (cid, ln, impl, errs, nontriv, finding), mo in zip(results, models):
     if mo is not None and mo.startswith('error '):
         mo = 'error'
@@ -663,8 +929,9 @@ def gen_ffvars(rng):
     return out
 
 
-def make_processor(cfg):
-    """a FRESH ApplyRubberBand from the configuration; returns (processor, region list handed to the factory)"""
+def make_processor(cfg, criterion=None, selector=None):
+    """a FRESH ApplyRubberBand from the configuration (criterion / selector: use these existing objects instead of
+    new ones); returns (processor, keyword arguments)"""
     kw = dict(lower_bound=cfg['lo'], upper_bound=cfg['U'] / UNIT, decay_factor=cfg['a'], decay_power=cfg['pw'],
               base_constant=cfg['base'], minimum_force=cfg['minf'])
     if not (cfg['names'] == ['BB'] and cfg['default_selector']):
@@ -681,6 +948,10 @@ def make_processor(cfg):
         regions[0] = (99999, 99999)
     elif cfg.get('pass_always'):
         kw['domain_criterion'] = ARB.always_true
+    if criterion is not None:
+        kw['domain_criterion'] = criterion
+    if selector is not None:
+        kw['selector'] = selector
     for key, name in (('rmd', 'res_min_dist'), ('bt', 'bond_type'), ('btv', 'bond_type_variable'),
                       ('rmdv', 'res_min_dist_variable')):
         if cfg[key] == 'None':
@@ -812,9 +1083,9 @@ def canon_result(spec, exc, rubber, warns, ktab_fn):
         pb = next((pos_of(x) for x in spec['atoms'] if x['key'] == b), None)
         kexp = ktab_fn(d2_of(pa, pb)) if pa is not None and pb is not None else None
         fcf = float(fc)
-        if kexp is not None and close(fcf, kexp):
+        if kexp is not None and not exact_pair(spec['params'], d2_of(pa, pb)) and close(fcf, kexp):
             fcf = kexp
-        bl.append([a, b, n5_of(length)] + frac(fcf))
+        bl.append([a, b, n5_of(inter)] + frac(fcf))
     out = 'bonds ' + enc(bl) + (' +warning' if warns else '')
     if bl:
         out += ' bt=' + ','.join(str(b) for b in sorted(bts, key=str))
@@ -836,6 +1107,53 @@ def apply_proc(proc, spec):
     return exc, rubber, warns
 
 
+def one_application(proc, cfg, rng, j, errs):
+    """apply `proc` (built from `cfg`, maybe long ago, maybe sharing objects with others) to a new molecule; compare
+    with a FRESH processor built from cfg, judge with the criteria oracle; returns (tokens of the molecule for the
+    model, canonical result, resolved separation, any bond?, skip?)"""
+    g = gen_spec(rng, False)
+    ffvars = gen_ffvars(rng)
+    bt, rmd = expected_options(cfg, ffvars)
+    p = {'names': cfg['names'], 'U': cfg['U'], 'lo': cfg['lo'], 'a': cfg['a'], 'pw': cfg['pw'], 'base': cfg['base'],
+         'minf': cfg['minf'], 'sep': rmd, 'dom': cfg['dom'], 'via': 'history', 'bond_type': bt,
+         'expect_bt': bt, 'expect_sep': rmd, 'ffvars': ffvars}
+    spec = {'atoms': g['atoms'], 'edges': g['edges'], 'params': p}
+    sel = selected_atoms(spec)
+    ktab, skip = {}, False
+    exact = cfg['a'] == 0.0
+    if not exact:
+        pts = [pos_of(a) for a in sel if pos_of(a) is not None]
+        for x, pa in enumerate(pts):
+            for pb in pts[x + 1:]:
+                d2 = d2_of(pa, pb)
+                if d2 not in ktab:
+                    ktab[d2] = k_expected(p, d2)
+                    if ktab[d2] != ktab[d2] or near_thr(ktab[d2], p['minf']):
+                        skip = True
+        if 0 not in ktab and k_expected(p, 0) == k_expected(p, 0):
+            ktab[0] = k_expected(p, 0)
+    ktab_fn = (lambda d2, p=p: p['base']) if exact else (lambda d2, ktab=ktab, p=p: ktab[d2] if d2 in ktab else k_expected(p, d2))
+    exc, rubber, warns = apply_proc(proc, spec)
+    fresh, _ = make_processor(cfg)
+    fexc, frubber, fwarns = apply_proc(fresh, spec)
+    impl = canon_result(spec, exc, rubber, warns, ktab_fn)
+    fimpl = canon_result(spec, fexc, frubber, fwarns, ktab_fn)
+    if impl != fimpl:
+        errs.append('application %d of a reused processor gives %s; a fresh processor with the same arguments gives '
+                    '%s (force-field variables %r)' % (j + 1, clip(impl, 200), clip(fimpl, 200), ffvars))
+    table = criteria_table(spec, ktab_fn)
+    errs += ['application %d: %s' % (j + 1, e) for e in oracle(spec, exc, rubber, warns, True, table, ktab_fn,
+                                                                 sink=errs, prefix='application %d: ' % (j + 1))]
+    atoms_t = []
+    for a in spec['atoms']:
+        pos = a['pos']
+        atoms_t.append([a['key'], a.get('name'), a.get('chain'), a.get('resid'), a.get('resname'), a.get('icode'),
+                        a.get('old'), [] if pos in ('nan', 'nan2') else pos])
+    mol_t = [atoms_t, [list(e) for e in spec['edges']], [[k, v] for k, v in ffvars.items()],
+             [[d2] + frac(k) for d2, k in sorted(ktab.items())] if not exact else []]
+    return mol_t, impl, rmd, bool(rubber), skip
+
+
 rng = chk.rng('history')
 hist_lines, hist_meta = [], []
 for i in range(2500 if chk.thorough else 260):
@@ -847,52 +1165,17 @@ for i in range(2500 if chk.thorough else 260):
     mols, impls, errs, skip, nontriv, finding = [], [], [], False, False, None
     seps = set()
     for j in range(n_app):
-        g = gen_spec(rng, False)
-        ffvars = gen_ffvars(rng)
-        bt, rmd = expected_options(cfg, ffvars)
-        p = {'names': cfg['names'], 'U': cfg['U'], 'lo': cfg['lo'], 'a': cfg['a'], 'pw': cfg['pw'], 'base': cfg['base'],
-             'minf': cfg['minf'], 'sep': rmd, 'dom': cfg['dom'], 'via': 'history', 'bond_type': bt,
-             'expect_bt': bt, 'expect_sep': rmd, 'ffvars': ffvars}
-        spec = {'atoms': g['atoms'], 'edges': g['edges'], 'params': p}
-        sel = selected_atoms(spec)
-        ktab = {}
-        exact = cfg['a'] == 0.0
-        if not exact:
-            pts = [pos_of(a) for a in sel if pos_of(a) is not None]
-            for x, pa in enumerate(pts):
-                for pb in pts[x + 1:]:
-                    d2 = d2_of(pa, pb)
-                    if d2 not in ktab:
-                        ktab[d2] = k_expected(p, d2)
-                        if ktab[d2] != ktab[d2] or near_thr(ktab[d2], p['minf']):
-                            skip = True
-            ktab.setdefault(0, k_expected(p, 0))
-        ktab_fn = (lambda d2, p=p: p['base']) if exact else (lambda d2, ktab=ktab, p=p: ktab[d2] if d2 in ktab else k_expected(p, d2))
-        exc, rubber, warns = apply_proc(proc, spec)
-        fresh, _ = make_processor(cfg)
-        fexc, frubber, fwarns = apply_proc(fresh, spec)
-        impl = canon_result(spec, exc, rubber, warns, ktab_fn)
-        fimpl = canon_result(spec, fexc, frubber, fwarns, ktab_fn)
-        if impl != fimpl:
-            errs.append('application %d of a reused processor gives %s; a fresh processor with the same arguments gives '
-                        '%s (force-field variables %r)' % (j + 1, clip(impl, 200), clip(fimpl, 200), ffvars))
+        mol_t, impl, rmd, any_bond, sk = one_application(proc, cfg, rng, j, errs)
+        skip = skip or sk
         if snapshot(proc) != snap0:
             errs.append('application %d changed the processor object: %r' % (j + 1, snapshot(proc)))
-        table = criteria_table(spec, ktab_fn)
-        errs += ['application %d: %s' % (j + 1, e) for e in oracle(spec, exc, rubber, warns, True, table, ktab_fn)]
-        atoms_t = []
-        for a in spec['atoms']:
-            pos = a['pos']
-            atoms_t.append([a['key'], a.get('name'), a.get('chain'), a.get('resid'), a.get('resname'), a.get('icode'),
-                            a.get('old'), [] if pos in ('nan', 'nan2') else pos])
-        mols.append([atoms_t, [list(e) for e in spec['edges']], [[k, v] for k, v in ffvars.items()],
-                     [[d2] + frac(k) for d2, k in sorted(ktab.items())] if not exact else []])
+        mols.append(mol_t)
         impls.append(impl)
         seps.add(rmd)
-        if rubber:
-            nontriv = True
+        nontriv = nontriv or any_bond
     if skip:
         chk.count('excluded_near_minimum_force')
+        LEN_CHECKS[:] = [c for c in LEN_CHECKS if c[0] is not errs]
         continue
     chk.count('history_applications=%d' % n_app)
     chk.count('history_rmd_%s' % ('none' if given(cfg['rmd']) is None else 'zero' if cfg['rmd'] == 0 else 'given'))
@@ -902,7 +1185,61 @@ for i in range(2500 if chk.thorough else 260):
     hist_lines.append(line('history', proc_tokens(cfg), mols))
     hist_meta.append(('history-%d' % i, ' ; '.join(impls), errs, nontriv and len(seps) > 1))
 hist_models = chk.drv.ask(hist_lines) if chk.lean_ok else [None] * len(hist_lines)
+flush_len_checks()
 for ln, (cid, impl, errs, nt), mo in zip(hist_lines, hist_meta, hist_models):
+    chk.case(cid, ln, impl, mo, errs, nt)
+
+# (b2) several processors sharing ONE criterion object (and often one selector object), applied interleaved
+rng = chk.rng('shared')
+sh_lines, sh_meta = [], []
+for i in range(1500 if chk.thorough else 170):
+    n_proc = rng.choice([2, 2, 3])
+    cfgs = [gen_proc(rng, rng.random() < 0.2) for _ in range(n_proc)]
+    dom0 = cfgs[0]['dom']
+    crit_obj = ({'always': ARB.always_true, 'chain': ARB.same_chain}.get(dom0[0])
+                or ARB.make_same_region_criterion([tuple(r) for r in dom0[1]]))
+    sel_obj = functools.partial(selectors.proto_select_attribute_in, attribute='atomname', values=list(cfgs[0]['names']))
+    procs, n_shared = [], 0
+    for k, c in enumerate(cfgs):
+        share = k == 0 or rng.random() < 0.75
+        kw = {}
+        if share:
+            c['dom'] = dom0
+            c['pass_always'] = True
+            kw['criterion'] = crit_obj
+            n_shared += 1
+            if rng.random() < 0.5:
+                c['names'], c['default_selector'] = list(cfgs[0]['names']), False
+                kw['selector'] = sel_obj
+        procs.append(make_processor(c, **kw)[0])
+    snaps = [snapshot(p) for p in procs]
+    cells = None
+    if getattr(crit_obj, '__closure__', None):
+        cells = repr([c.cell_contents for c in crit_obj.__closure__])
+    sched = [rng.randrange(n_proc) for _ in range(rng.choice([3, 4, 4, 5]))]
+    entries, impls, errs, skip, nontriv = [], [], [], False, False
+    for j, k in enumerate(sched):
+        mol_t, impl, rmd, any_bond, sk = one_application(procs[k], cfgs[k], rng, j, errs)
+        skip = skip or sk
+        entries.append([k, mol_t])
+        impls.append(impl)
+        nontriv = nontriv or any_bond
+        for q, (pr, sn) in enumerate(zip(procs, snaps)):
+            if snapshot(pr) != sn:
+                errs.append('application %d (processor %d) changed processor %d: %r' % (j + 1, k, q, snapshot(pr)))
+        if cells is not None and repr([c.cell_contents for c in crit_obj.__closure__]) != cells:
+            errs.append('application %d changed what the shared criterion holds: %s' % (j + 1, cells))
+    if skip:
+        chk.count('excluded_near_minimum_force')
+        LEN_CHECKS[:] = [c for c in LEN_CHECKS if c[0] is not errs]
+        continue
+    chk.count('shared_processors=%d_sharing_the_criterion=%d' % (n_proc, n_shared))
+    chk.count('shared_domain_' + dom0[0])
+    sh_lines.append(line('shared', [proc_tokens(c) for c in cfgs], entries))
+    sh_meta.append(('shared-%d' % i, ' ; '.join(impls), errs, nontriv and n_shared > 1 and len(set(sched)) > 1))
+sh_models = chk.drv.ask(sh_lines) if chk.lean_ok else [None] * len(sh_lines)
+flush_len_checks()
+for ln, (cid, impl, errs, nt), mo in zip(sh_lines, sh_meta, sh_models):
     chk.case(cid, ln, impl, mo, errs, nt)
 
 # (c) the region criterion on its own: overlapping, unordered, reused, caller mutates its list afterwards
@@ -956,6 +1293,79 @@ reg_models = chk.drv.ask(reg_lines) if chk.lean_ok else [None] * len(reg_lines)
 for ln, (cid, impl, errs, nt), mo in zip(reg_lines, reg_meta, reg_models):
     chk.case(cid, ln, impl, mo, errs, nt)
 
+
+# ---- the command-line layer -------------------------------------------------------------------------------------
+def cli_line(o, probes):
+    fl = [frac(float(o['floats'][f])) if f in o['floats'] else None for f in ('-ef', '-el', '-eu', '-ea', '-ep', '-em')]
+    return line('cli', bool(o['elastic']), bool(o['go']), o['ff'], *fl, o['ermd'], o['eb'], o['eunit'], probes)
+
+
+if CLI_X is not None:
+    # (a) int(): the model's pyInt against Python on random ASCII strings
+    rng = chk.rng('pyint')
+    ALPH = '0123456789' * 3 + '+-_ \t\n\r\x0b\x0c' + '.xeE:,a\x1c'
+    ilines, imeta = [], []
+    for i in range(6000 if chk.thorough else 700):
+        if rng.random() < 0.5:
+            st = c15_cli.decorate_int(rng, rng.choice([0, 1, 7, 10, 12, 105, 2024, -3, -10, -999]))
+            if rng.random() < 0.3:
+                k = rng.randrange(len(st) + 1)
+                st = st[:k] + rng.choice(ALPH) + st[k:]
+        else:
+            st = ''.join(rng.choice(ALPH) for _ in range(rng.choice([0, 1, 1, 2, 3, 4, 6])))
+        try:
+            impl = str(int(st))
+        except ValueError:
+            impl = '-'
+        errs = []
+        if (impl != '-') != c15_cli.is_int_literal(st):
+            errs.append('int(%r) %s, the documented literal grammar says otherwise' % (st, 'accepted' if impl != '-' else 'rejected'))
+        chk.count('pyint_' + ('accepted' if impl != '-' else 'rejected'))
+        ilines.append(line('pyint', st))
+        imeta.append(('pyint-%d' % i, impl, errs, impl != '-' and st.strip() != impl))
+    for ln, (cid, impl, errs, nt), mo in zip(ilines, imeta, chk.drv.ask(ilines) if chk.lean_ok else [None] * len(ilines)):
+        chk.case(cid, ln, impl, mo, errs, nt)
+
+    # (b) canonical rendering of region lists: model's renderer = '%d:%d' joined by commas, and parses back
+    rng = chk.rng('render')
+    rlines, rmeta = [], []
+    for i in range(3000 if chk.thorough else 400):
+        rs = c15_cli.gen_regions(rng)
+        if rng.random() < 0.2:
+            rs = [(rng.randint(-10 ** 9, 10 ** 9), rng.randint(-10 ** 12, 10 ** 12)) for _ in range(rng.choice([1, 2]))]
+        text = ','.join('%d:%d' % r for r in rs)
+        impl = enc(text) + ' regions ' + enc([list(r) for r in rs])
+        errs = [] if c15_cli.documented_regions(text) == rs else ['rendering %r is not read back as %r' % (text, rs)]
+        rlines.append(line('render', [list(r) for r in rs]))
+        rmeta.append(('render-%d' % i, impl, errs, len(rs) > 1))
+    for ln, (cid, impl, errs, nt), mo in zip(rlines, rmeta, chk.drv.ask(rlines) if chk.lean_ok else [None] * len(rlines)):
+        chk.case(cid, ln, impl, mo, errs, nt)
+
+    # (c) the extracted parser + statements on random option values
+    rng = chk.rng('cli')
+    runner = c15_cli.make_runner(CLI_X, vermouth, ARB, selectors, enc)
+    clines, cmeta = [], []
+    for i in range(12000 if chk.thorough else 1500):
+        o = c15_cli.gen_cli_options(rng)
+        argv = c15_cli.argv_of(rng, o)
+        if not all(c15_cli.ascii_only(x) for x in argv):
+            chk.count('cli_excluded_non_ascii')
+            continue
+        probes = c15_cli.probes_for(rng, o['eunit'])
+        impl, info = runner(argv, probes)
+        errs = c15_cli.cli_oracle(o, probes, impl, info)
+        head = impl.split(' ')[0]
+        chk.count('cli_outcome_' + head)
+        chk.count('cli_unit_' + o['unit_kind'])
+        if head == 'proc':
+            chk.count('cli_domain_kind_' + info['kind'])
+        clines.append(cli_line(o, probes))
+        cmeta.append(('cli-%d' % i, impl, errs,
+                      (head == 'proc' and info['kind'] == '2' and 1 in info['table'] and 0 in info['table'])
+                      or head in ('errint', 'errfaulty')))
+    for ln, (cid, impl, errs, nt), mo in zip(clines, cmeta, chk.drv.ask(clines) if chk.lean_ok else [None] * len(clines)):
+        chk.case(cid, ln, impl, mo, errs, nt)
+
 # ---- length rounding: model vs numpy on all small squared distances -----------------------------
 rng = chk.rng('len5')
 d2s = list(range(0, 3000 if chk.thorough else 600)) + [rng.randrange(10 ** 6) for _ in range(3000 if chk.thorough else 400)]
@@ -964,10 +1374,103 @@ arr = np.sqrt(np.array(d2s, dtype=float) / (UNIT * UNIT)).round(5)
 llines = [line('len5', d2) for d2 in d2s]
 lmodels = chk.drv.ask(llines) if chk.lean_ok else [None] * len(llines)
 for d2, ln, val, mo in zip(d2s, llines, arr, lmodels):
-    n5 = int(round(float(val) * 1e5))
+    n5 = n5_exact(str(val))
     errs = []
-    if n5 != len5_expected(d2):
-        errs.append('round(sqrt(%d)/256, 5) = %r, nearest 1e-5 multiple is %d' % (d2, val, len5_expected(d2)))
+    if n5 is None or not py_admissible(d2, n5):
+        errs.append('round(sqrt(%d)/256, 5) = %s, nearest 1e-5 multiple is %d' % (d2, val, len5_expected(d2)))
     chk.count('len5_cases')
     chk.case('len5-%d' % d2, ln, str(n5), mo, errs, False)
+
+# ---- (d) real command-line runs (done meanwhile in the forked child): processor built, networks produced ----------
+class Inter:
+    def __init__(self, atoms, parameters, rendered, meta):
+        self.atoms, self.parameters, self.rendered, self.meta = tuple(atoms), parameters, rendered, meta
+
+
+class Warn:
+    def __init__(self, msg):
+        self.msg = msg
+
+    def getMessage(self):
+        return self.msg
+
+
+if CLI_HANDLE is not None:
+    cli_results = c15_cli.collect_cli_runs(CLI_HANDLE)
+    if cli_results is None or len(cli_results) != len(CLI_RUNS):
+        chk.case('clirun-all', 'martinize2 -elastic ...', 'no result', None,
+                 ['the in-process command-line runs did not come back'], True)
+        cli_results = []
+    run_lines, run_meta, mol_cases = [], [], []
+    for i, (o, res) in enumerate(zip(CLI_RUNS, cli_results)):
+        argv = cli_argv(o)
+        probes = cli_probes(argv)
+        oc = res['outcome']
+        info = None
+        if res.get('proc'):
+            impl = res['proc']
+            info = dict(res['info'])
+            info['attrs'] = info['nums']
+        elif oc == 'exit 2':
+            impl = 'usage'
+        elif oc.startswith('exc ValueError: Faulty resid interval'):
+            impl, info = 'errfaulty', {'message': oc[len('exc ValueError: '):]}
+        elif oc.startswith('exc ValueError: invalid literal for int()'):
+            impl, info = 'errint', {'message': oc}
+        elif oc == 'end':
+            impl = 'noelastic'
+        else:
+            impl = oc
+        errs = c15_cli.cli_oracle(o, probes, impl, info)
+        if res.get('proc') and oc not in ('stop', 'end'):
+            errs.append('martinize2 %s ended with %s (%s)' % (' '.join(argv), oc, res['stderr'][-200:]))
+        if res.get('proc') and res['n_rb_calls'] != 1:
+            errs.append('ApplyRubberBand.run_system called %d times' % res['n_rb_calls'])
+        if res.get('proc') and (o['eunit'] == 'all') != (res['merged'] == 1 and len(res['mols']) == 1):
+            errs.append('-eunit %r: MergeAllMolecules called %d times, %d molecules afterwards'
+                        % (o['eunit'], res['merged'], len(res['mols'])))
+        chk.count('clirun_' + impl.split(' ')[0])
+        run_lines.append(cli_line(o, probes))
+        run_meta.append(('clirun-%d' % i, impl, errs, True))
+        if not res.get('proc') or res.get('mols') is None:
+            continue
+        nums = info['nums']
+        unit = 'molecule' if o['eunit'] is None else o['eunit']
+        dom = (['always'] if unit in ('molecule', 'all') else ['chain'] if unit == 'chain'
+               else ['regions', [list(r) for r in (c15_cli.documented_regions(unit) or [])]])
+        all_rendered = []
+        for j, m in enumerate(res['mols']):
+            ffv = m['ffvars']
+            bt = ffv.get('elastic_network_bond_type', ARB.DEFAULT_BOND_TYPE)
+            sep = int(o['ermd']) if o['ermd'] is not None else ffv.get('elastic_network_res_min_dist', ARB.DEFAULT_RMD)
+            if o['ermd'] is None and 'res_min_dist' in ffv and 'elastic_network_res_min_dist' not in ffv:
+                chk.count('clirun_force_field_defines_res_min_dist_%d_but_processor_reads_elastic_network_res_min_dist'
+                          % ffv['res_min_dist'])
+            p = {'names': info['names'], 'upper': float(nums['upper_bound']), 'lo': nums['lower_bound'],
+                 'a': nums['decay_factor'], 'pw': nums['decay_power'], 'base': nums['base_constant'],
+                 'minf': nums['minimum_force'], 'sep': sep, 'dom': dom, 'via': 'cli', 'bond_type': bt, 'expect_bt': bt,
+                 'expect_sep': sep}
+            spec = {'atoms': m['atoms'], 'edges': m['edges'], 'params': p}
+            rubber = [Inter(a, prm, rnd, meta) for a, prm, rnd, meta in m['rubber']]
+            all_rendered += [' '.join(b.rendered) for b in rubber]
+            real = (res['exc'], rubber, [Warn(w) for w in res['warnings']], m['intact'])
+            mol_cases.append(('clirun-%d-mol%d' % (i, j), spec, 'clirun', real))
+        if 'itps' in res:
+            written = [' '.join(prm) for text in res['itps'].values() for _, _, prm in c15_cli.itp_rubber_lines(text)]
+            chk.count('clirun_itp_rubber_lines', len(written))
+            if sorted(written) != sorted(all_rendered):
+                run_meta[-1][2].append('the written ITP lists %d rubber-band bonds with parameters %r..., the processor '
+                                       'produced %d with %r...' % (len(written), sorted(written)[:2], len(all_rendered),
+                                                                    sorted(all_rendered)[:2]))
+    for ln, (cid, impl, errs, nt), mo in zip(run_lines, run_meta, chk.drv.ask(run_lines) if chk.lean_ok else [None] * len(run_lines)):
+        chk.case(cid, ln, impl, mo, errs, nt)
+    mres = [evaluate(cid, spec, stream, real) for cid, spec, stream, real in mol_cases]
+    mres = [r for r in mres if r is not None]
+    mmod = chk.drv.ask([r[1] for r in mres]) if chk.lean_ok else [None] * len(mres)
+    flush_len_checks()
+    for (cid, ln, impl, errs, nontriv, finding), mo in zip(mres, mmod):
+        if mo is not None and mo.startswith('error '):
+            mo = 'error'
+        chk.case(cid, ln, impl, mo, errs, bool(impl.startswith('bonds [ [')), finding=finding)
+
 chk.finish()
